@@ -119,6 +119,8 @@ spec_gz_hdr_build(uint8_t *out, const struct spec_gz_hdr *h, spec_crc32_fn crc32
 #define SPEC_GZ_BAD_ID    2 /* ID1/ID2 wrong */
 #define SPEC_GZ_BAD_CM    3 /* CM != 8 */
 #define SPEC_GZ_BAD_HCRC  4 /* FHCRC present and CRC16 differs */
+#define SPEC_GZ_OK_PRE    5 /* only when called with crc32 == NULL: complete, FHCRC present, both CRC16
+                               bytes available but not judged; *hdr_len = offset of the CRC16 field */
 
 struct spec_gz_parse {
         uint32_t hdr_len;
@@ -179,6 +181,10 @@ spec_gz_parse(const uint8_t *in, uint32_t n, struct spec_gz_parse *r, spec_crc32
                 uint32_t c;
                 if (n - p < 2)
                         return SPEC_GZ_SHORT;
+                if (!crc32) {
+                        r->hdr_len = p;
+                        return SPEC_GZ_OK_PRE;
+                }
                 c = crc32(0, in, p);
                 if (in[p] != (uint8_t) (c & 0xff) || in[p + 1] != (uint8_t) ((c >> 8) & 0xff)) {
                         r->hdr_len = p + 2;
